@@ -470,14 +470,14 @@ def tidy(items):
 def _loop_refs(lp):
     """placeholders (loop-carried locals) the consumption of a loop depends on: those in its test, its items and, transitively, in the
     updates of those"""
-    names = {repr(p): p for p, _v in lp.carry}
-    upd = {repr(p): v for p, v in lp.carry}
+    names = {akey(p): p for p, _v in lp.carry}
+    upd = {akey(p): v for p, v in lp.carry}
     want = set()
 
     def scan(v):
         for d in walk_atoms(v):
             if d[0] == "fn" and d[1] == "lv":
-                k = repr(F.Rat(F.Poly.atom(F._intern(d))))
+                k = akey(F.Rat(F.Poly.atom(F._intern(d))))
                 if k in names:
                     want.add(k)
 
@@ -1453,7 +1453,7 @@ class Walker:
                 except Unsupported as ex:
                     ph[nm] = Unknown(str(ex))
                     continue
-            k = repr(e)
+            k = akey(e)
             seen[k] = seen.get(k, 0) + 1
             ph[nm] = F.fn("lv", frame_id, e) if seen[k] == 1 else F.fn("lv", frame_id, e, F.const(seen[k]))
         return ph
